@@ -95,9 +95,12 @@ class RecRaw(io.FileIO):
                 _record({'op': 'create', 'file': self._rel})
 
     def readinto(self, b):
-        if self._rel is not None:
-            _io_yield('io-read')
-        return super().readinto(b)
+        if self._rel is None:
+            return super().readinto(b)
+        _io_yield('io-read')
+        n = super().readinto(b)
+        _io_yield('io-read-done')       # the buffer is filled, the caller has not looked at it yet
+        return n
 
     def write(self, b):
         if self._rel is None:
